@@ -39,10 +39,19 @@ def gen_case(rng, tier):
     if tier == "quick" and rng.random() < 0.5:
         # keep half of the quick programs small (compile time)
         lens = list(rng.choice(SIZES2[:5] + [(4, 5), (6, 6)]))
+    style = rng.choice(["default_defined", "default_not_defined", "traits",
+                        "traits_private"])
+    size = 1
+    for n in lens:
+        size *= n
+    if size <= 100 and rng.random() < 0.4:
+        # two methods with the same signature in the product's first list,
+        # the definitions' fn inherited from a base that does not depend on
+        # the method: the same function is a definition of both methods
+        style = "shared_fn_two_methods"
     return {
         "lens": lens,
-        "style": rng.choice(["default_defined", "default_not_defined",
-                             "traits", "traits_private"]),
+        "style": style,
         "p_not_defined": rng.choice([0.0, 0.1, 0.5, 0.9, 1.0]),
         "subset_seed": rng.randrange(1 << 30),
     }
@@ -66,7 +75,109 @@ def code_of(combo):
     return v
 
 
+def emit_two_methods(case):
+    lens = case["lens"]
+    arity = len(lens)
+    nmax = max(lens)
+    all_combos = combos(lens)
+    nd = []
+    for k in range(2):
+        rng = random.Random(case["subset_seed"] + 11 * k)
+        nd.append(set(tuple(c) for c in all_combos
+                      if rng.random() < case["p_not_defined"]))
+    out = []
+    out.append("#include <yorel/yomm2/core.hpp>")
+    out.append("#include <yorel/yomm2/symbols.hpp>")
+    out.append("#include <yorel/yomm2/templates.hpp>")
+    out.append("#include <cstdio>")
+    out.append("using namespace yorel::yomm2;")
+    out.append("namespace mp = boost::mp11;")
+    out.append("struct Root { virtual ~Root() {} };")
+    out.append("template<int I> struct K : Root { static constexpr int "
+               "index = I; };")
+    out.append("using pol = default_policy;")
+    out.append("use_classes<Root, %s> YOMM2_GENSYM;" % ", ".join(
+        "K<%d>" % i for i in range(nmax)))
+    params = ", ".join(["virtual_<Root&>"] * arity)
+    out.append("struct YOMM2_SYMBOL(meth); struct YOMM2_SYMBOL(meth2);")
+    out.append("using meth = method<YOMM2_SYMBOL(meth), int(%s)>;" % params)
+    out.append("using meth2 = method<YOMM2_SYMBOL(meth2), int(%s)>;" % params)
+    targs = ", ".join("typename T%d" % i for i in range(arity))
+    tnames = ", ".join("T%d" % i for i in range(arity))
+    fparams = ", ".join("T%d&" % i for i in range(arity))
+    codeexpr = "0"
+    for i in range(arity):
+        codeexpr = "(%s) * 1000 + T%d::index + 1" % (codeexpr, i)
+    out.append("template<%s> struct impl { static int fn(%s) { return %s; } "
+               "};" % (targs, fparams, codeexpr))
+    out.append("template<typename M, %s> struct definition : impl<%s> {};" % (
+        targs, tnames))
+    for k, m in enumerate(("meth", "meth2")):
+        for c in all_combos:
+            if tuple(c) in nd[k]:
+                out.append("template<> struct definition<%s, %s> : "
+                           "not_defined {};" % (m, ", ".join(
+                               "K<%d>" % i for i in c)))
+    lists = ", ".join("types<%s>" % ", ".join("K<%d>" % i for i in range(n))
+                      for n in lens)
+    out.append("use_definitions<definition, product<types<meth, meth2>, %s>> "
+               "YOMM2_GENSYM;" % lists)
+    out.append("struct NotImplemented {};")
+    for k in range(2):
+        out.append("static const bool is_defined%d[] = {%s};" % (
+            k, ", ".join("0" if tuple(c) in nd[k] else "1"
+                         for c in all_combos)))
+    out.append("template<class M> static int check(const bool* is_defined, "
+               "std::size_t expected, const char* name) {")
+    out.append("    int failures = 0;")
+    out.append("    if (M::fn.specs.size() != expected) { std::printf(\"FAIL "
+               "%s: the catalog holds %zu definitions, %zu combinations are "
+               "defined\\n\", name, M::fn.specs.size(), expected); "
+               "++failures; }")
+    out.append("    Root* objs[%d];" % nmax)
+    for i in range(nmax):
+        out.append("    static K<%d> k%d; objs[%d] = &k%d;" % (i, i, i, i))
+    out.append("    static const int lens[] = {%s};" % ", ".join(
+        str(n) for n in lens))
+    out.append("    int idx[%d] = {};" % arity)
+    out.append("    for (int n = 0; n < %d; ++n) {" % len(all_combos))
+    out.append("        int rem = n; for (int d = %d; d >= 0; --d) { idx[d] = "
+               "rem %% lens[d]; rem /= lens[d]; }" % (arity - 1))
+    out.append("        long code = 0; for (int d = 0; d < %d; ++d) code = "
+               "code * 1000 + idx[d] + 1;" % arity)
+    call = ", ".join("*objs[idx[%d]]" % d for d in range(arity))
+    out.append("        int got = 0; bool ni = false;")
+    out.append("        try { got = M::fn(%s); } catch (NotImplemented&) "
+               "{ ni = true; } catch (int) { got = -2; }" % call)
+    out.append("        if (is_defined[n] ? (ni || got != code) : !ni) {")
+    out.append("            if (failures < 3) std::printf(\"FAIL %s "
+               "combination #%d: %s\\n\", name, n, is_defined[n] ? (ni ? "
+               "\"defined but not registered\" : \"another definition "
+               "ran\") : \"marked not_defined but a definition ran\");")
+    out.append("            ++failures;")
+    out.append("        }")
+    out.append("    }")
+    out.append("    return failures;")
+    out.append("}")
+    out.append("int main() {")
+    out.append("    pol::error = [](const error_type& e) { if (auto r = "
+               "std::get_if<resolution_error>(&e)) { if (r->status == "
+               "resolution_error::no_definition) throw NotImplemented(); } "
+               "throw 1; };")
+    out.append("    update();")
+    ndef = [len(all_combos) - len(nd[k]) for k in range(2)]
+    out.append("    int failures = check<meth>(is_defined0, %d, \"meth\") + "
+               "check<meth2>(is_defined1, %d, \"meth2\");" % (
+                   ndef[0], ndef[1]))
+    out.append("    if (!failures) std::printf(\"PASS\\n\");")
+    out.append("    return failures != 0;")
+    out.append("}")
+    return "\n".join(out), 2 * len(all_combos), ndef[0] + ndef[1]
+
+
 def emit_program(case):
+    if case["style"] == "shared_fn_two_methods":
+        return emit_two_methods(case)
     lens = case["lens"]
     arity = len(lens)
     nmax = max(lens)
@@ -282,6 +393,8 @@ def check(tier, seed, scratch, inc, ncpu, pool_map):
                         style="traits")
         cases[5] = dict(cases[5], lens=[3, 3, 3], p_not_defined=0.5,
                         style="traits_private")
+        cases[6] = dict(cases[6], lens=[4, 5], p_not_defined=0.5,
+                        style="shared_fn_two_methods")
     results = pool_map(run_case, [(c, scratch, "c20_%d" % i, inc)
                                   for i, c in enumerate(cases)])
     res = dict(evaluations=0, nontrivial=0, inconclusive=0, classes={},
